@@ -1,10 +1,17 @@
 (* C03  Replication is transparent and survivors take over.  Statements only.
-   Per run, everything is proved; the cluster-level statement is PARTIAL: it rests on the named premise
-   sync_step (table-level plumbing of one synchronous step), which the correspondence check verifies on every
-   generated step of model and implementation. *)
+   Per run: a local change is ahead of every identical copy, and applying the replicated record to an identical
+   copy yields an identical copy.  Per step (C03_sync_step): a peer that holds the same runs as the sender held
+   before the event holds the same runs as the sender afterwards, pattern by pattern and in the same order -
+   proved for non-singleton patterns under explicit identifier-hygiene side conditions (active run ids unique,
+   drawn ids fresh, records name existing patterns, the receiver remembers none of the note's runs as finished).
+   Cluster (C03_replicas_equal): with replication messages delivered between consecutive inputs, for EVERY routing
+   of the stream, all replicas hold the same runs after every input; together with C03_step_depends_on_table_only
+   whichever instance receives the next input - in particular any survivor of any crash - reports exactly what a
+   single engine holding that table reports.  The older premise-based form is kept as C03_replicas_equal_partial. *)
 From Bobo Require Import Base.Prelude Base.History Model.Pattern Model.Run Model.Decider Model.Cluster Model.PredLang.
 From Bobo Require Import Proofs.RunProofs Proofs.DeciderLemmas Proofs.DeciderProofs Proofs.StepProofs.
-From Bobo Require Import Proofs.ClusterProofs Proofs.RemoteWitness.
+From Bobo Require Import Model.Converge Model.ConvergeC.
+From Bobo Require Import Proofs.ClusterProofs Proofs.RemoteWitness Proofs.JoinProofs Proofs.SyncProofs.
 
 (* a local change that leaves a run active is ahead of every identical copy (so the peers apply it):
    further along the pattern, or at the same looping block with one more event *)
@@ -47,6 +54,31 @@ Theorem C03_replicas_equal_partial : forall (E : Type) (cfg : config E) (gen : n
     tables_equal E ss -> crun cfg gen ss inp = Some (ss', ns) -> tables_equal E ss'.
 Proof. exact crun_tables_equal_partial. Qed.
 
+(* one synchronous replication step keeps a replica equal to the sender, bucket by bucket *)
+Theorem C03_sync_step :
+  forall (E : Type) (cfg : config E) (gen : nat -> nat -> Z),
+    cfg_wf E cfg -> (forall ph pat p, get_pattern cfg ph pat = Some p -> p_single p = false) ->
+    forall i j (si sj si' : dstate E) (e : E) (n : note E),
+      beq E (d_runs sj) (d_runs si) ->
+      Inv E (icfg cfg gen i) (d_runs si) -> Inv E (icfg cfg gen j) (d_runs sj) ->
+      NoDup (map (@r_id E) (rt_all (d_runs si))) ->
+      (forall k r, (d_next si <= k)%nat -> In r (rt_all (d_runs si)) -> r_id r <> gen i k) ->
+      Forall (known_ns E (icfg cfg gen j)) (n_comp n) -> Forall (known_ns E (icfg cfg gen j)) (n_halt n) ->
+      Forall (known_ns E (icfg cfg gen j)) (n_upd n) ->
+      filter_msg (icfg cfg gen j) sj n = n ->
+      local_step (icfg cfg gen i) si e = Ok (si', n) ->
+      beq E (d_runs (fst (remote_apply (icfg cfg gen j) sj n))) (d_runs si').
+Proof. exact sync_step_holds. Qed.
+
+(* the cluster, from the initial state, for every routing of every stream *)
+Theorem C03_replicas_equal :
+  forall (E : Type) (cfg : config E) (gen : nat -> nat -> Z),
+    cfg_wf E cfg -> (forall ph pat p, get_pattern cfg ph pat = Some p -> p_single p = false) ->
+    forall n inp ss' ns,
+      crun_ok E cfg gen (repeat d_init n) inp ->
+      crun cfg gen (repeat d_init n) inp = Some (ss', ns) -> tables_beq E ss'.
+Proof. exact crun_from_init_tables_beq. Qed.
+
 (* the pinned commit (apply only when the index is greater) loses progress inside a looping block (D3) *)
 Theorem C03_loop_progress_refuted_unfixed :
   hist_sizes s_loop = [1%nat] /\
@@ -59,6 +91,8 @@ Print Assumptions C03_update_replicates.
 Print Assumptions C03_new_run_replicates.
 Print Assumptions C03_step_depends_on_table_only.
 Print Assumptions C03_replicas_equal_partial.
+Print Assumptions C03_sync_step.
+Print Assumptions C03_replicas_equal.
 Print Assumptions C03_loop_progress_refuted_unfixed.
 
 (* non-vacuity: two instances, pattern a ; loop l ; c, stream a@0 l@0 c@1: both replicas end with no active run *)
